@@ -17,6 +17,8 @@ def main():
         print("refusing: /repo has local modifications:\n" + st); return 2
     r = subprocess.run(["git", "-C", REPO, "apply", "--whitespace=nowarn", patch], capture_output=True, text=True)
     if r.returncode != 0:
+        for p in props:
+            print("%s ERROR (patch does not apply to %s)" % (p, REPO))
         print("patch does not apply:", r.stderr[:500]); return 2
     rc_all = 0
     try:
